@@ -3,6 +3,17 @@
 import json, subprocess, collections
 
 CLAIMS = {
+ "C01": dict(
+   text="Static protocol rules on go/ssa for the five duplicated move paths: swap fix-up after every row removal (same table, same row), every allocated row recorded in the world index with its table and row (single and bulk), column copy loops complete (range over the source's ids, filter only by destination membership, same column read and written, allocated row), shrink zeroes, cached raw pointers refreshed whenever a buffer or the layout table is replaced and growth copies old to new, layout capacity chain, per-column loops visit every column, growth copies whole slices. Each is a necessary condition of component integrity on every path; a deviant sibling is exactly what the existing tests miss.",
+   note="Does NOT decide that values survive: byte counts, offsets (itemSize*index), capacity arithmetic and the graph walk are out of reach. Trusted: go/ssa, access-path equality of table/row operands inside one function.",
+   technique="static analysis: protocol (pairing) rules, value identity and post-dominance on go/ssa; sibling movers",
+   ref="§2 C01"),
+ "C08": dict(
+   text="Sibling analysis of each single-entity operation and its batch form: equal sets of storage primitives applied and equal classes of panic guards (modulo a short reasoned asymmetry table), the returned count summed from table lengths read before rows move, batch range provenance and consumption, bulk rows indexed at their allocated row, whole-handle comparison when skipping unchanged targets.",
+   note="Does not decide equality of the resulting world states. The pair table and asymmetries are listed in checker/rules_c08.go.",
+   technique="static analysis: sibling effect-set comparison (Engler-style deviance) and provenance rules on go/ssa",
+   ref="§2 C08"),
+
  "C14": dict(
    text="Static rules joining go/ssa value flow with the compiler's own escape-analysis report: every parameter whose bytes reach the unsafe ingest into component storage must be reported as leaking (this is the check that found the dangling-stack-pointer defect); every call of the raw byte-copy primitive is classified by operand provenance, and a raw copy touching a component column needs a dominating pointer-freeness test (reports the missing write barrier, listed as a known finding); shrinking zeroes vacated rows; column storage is typed, retained reflect memory and the cached raw pointers are derived from it. GC schedules cannot be enumerated by tests; these are the code-shape conditions under which no schedule can go wrong.",
    note="The compiler's verdict (go build -gcflags=-m, no program is run) is trusted, for the toolchain used. The four raw copies of component columns without write barrier are a genuine, unrepaired defect: known finding H2 in known_findings.json (reproducer repro/gcbarrier). Does not explore GC schedules.",
